@@ -755,6 +755,131 @@ async fn run_resp_async(line: &str) -> CaseResult {
 }
 
 // ---------------------------------------------------------------------------------------------
+// req
+
+struct ScriptStream {
+    evs: VecDeque<Ev>,
+}
+
+impl futures_core::Stream for ScriptStream {
+    type Item = Result<Bytes, actix_web::error::PayloadError>;
+    fn poll_next(mut self: Pin<&mut Self>, cx: &mut Context<'_>) -> Poll<Option<Self::Item>> {
+        match self.evs.pop_front() {
+            None => Poll::Ready(None),
+            Some(Ev::Pending) => {
+                cx.waker().wake_by_ref();
+                Poll::Pending
+            }
+            Some(Ev::Err) => Poll::Ready(Some(Err(actix_web::error::PayloadError::Incomplete(None)))),
+            Some(Ev::Chunk(b)) => Poll::Ready(Some(Ok(b))),
+        }
+    }
+}
+
+fn known_coding(ce: &str) -> Option<&'static str> {
+    match ce.trim().to_ascii_lowercase().as_str() {
+        "gzip" => Some("gzip"),
+        "br" => Some("br"),
+        "deflate" => Some("deflate"),
+        "zstd" => Some("zstd"),
+        _ => None,
+    }
+}
+
+fn run_req(line: &str) -> CaseResult {
+    let line = line.to_owned();
+    block_on_system(async move { run_req_async(&line).await })
+}
+
+async fn run_req_async(line: &str) -> CaseResult {
+    use actix_web::dev::Service;
+    let n: usize = kv(line, "n").and_then(|s| s.parse().ok()).unwrap_or(0);
+    let orig = gen_body(kv(line, "body").unwrap_or("c0"), n);
+    let ce = opt_val(line, "ce");
+    let bad = kv(line, "bad") == Some("1");
+    let coding = ce.as_deref().and_then(known_coding);
+    let sent: Vec<u8> = match coding {
+        Some(c) if !bad => encode(c, &orig),
+        _ => orig.clone(),
+    };
+    let sent = Bytes::from(sent);
+    let toks = parse_toks(kv(line, "ev").unwrap_or(""));
+    let mut evs = VecDeque::new();
+    let mut off = 0usize;
+    let mut has_err = false;
+    for t in &toks {
+        match t {
+            Tok::Sz(k) => {
+                let end = (off + k).min(sent.len());
+                evs.push_back(Ev::Chunk(sent.slice(off..end)));
+                off = end;
+            }
+            Tok::P => evs.push_back(Ev::Pending),
+            Tok::E => {
+                has_err = true;
+                evs.push_back(Ev::Err)
+            }
+        }
+    }
+    if off < sent.len() {
+        evs.push_back(Ev::Chunk(sent.slice(off..)));
+    }
+    let app = test::init_service(
+        App::new()
+            .app_data(web::PayloadConfig::new(64 << 20))
+            .default_service(web::to(|body: web::Bytes| async move { HttpResponse::Ok().body(body) })),
+    )
+    .await;
+    let payload = actix_http::Payload::Stream { payload: Box::pin(ScriptStream { evs }) as actix_http::BoxedPayloadStream };
+    let mut req = actix_http::Request::with_payload(payload);
+    req.head_mut().method = actix_web::http::Method::POST;
+    if let Some(v) = &ce {
+        req.head_mut().headers_mut().insert(header::CONTENT_ENCODING, header::HeaderValue::from_str(v).unwrap());
+    }
+    let res = match tokio::time::timeout(Duration::from_secs(60), app.call(req)).await {
+        Err(_) => {
+            return CaseResult::ok("hang".into()).fail("request-hang", "extractor never completed".into());
+        }
+        Ok(Err(e)) => {
+            return CaseResult::ok(format!("svc-error {}", e.as_response_error().status_code().as_u16()));
+        }
+        Ok(Ok(r)) => r,
+    };
+    let status = res.status().as_u16();
+    let got = if status == 200 { test::read_body(res).await.to_vec() } else { vec![] };
+    let output = if status == 200 { format!("st=200 {}", show_sum(&got)) } else { format!("st={}", status) };
+    let mut r = CaseResult::ok(output);
+    r.nontrivial = coding.is_some() && !bad && !has_err && n > 0;
+    r.tags.push(format!(
+        "req:{}",
+        if bad { "corrupt".to_owned() } else { coding.map(|c| c.to_owned()).unwrap_or_else(|| "raw".into()) }
+    ));
+    if coding.is_some() && !bad {
+        let big = toks.iter().any(|t| matches!(t, Tok::Sz(k) if *k >= 2049)) || (toks.is_empty() && sent.len() >= 2049);
+        r.tags.push(format!("reqpath:{}", if big { "blocking" } else { "in-place" }));
+    }
+    // oracle
+    if has_err {
+        if status == 200 {
+            r = r.fail("request-error-swallowed", "payload error, yet the handler got a complete body".into());
+        }
+    } else if bad && coding.is_some() {
+        if status == 200 && got != orig {
+            // a corrupt stream must not be delivered as a successful, different body
+            r = r.fail("corrupt-accepted", format!("undecodable {} payload delivered as {} bytes", coding.unwrap(), got.len()));
+        }
+    } else if status != 200 {
+        r = r.fail("request-rejected", format!("intact payload (ce={:?}) answered with {}", ce, status));
+    } else if got != orig {
+        r = r.fail(
+            "request-body-differs",
+            format!("ce={:?}: handler got {} bytes (sum {}), original {} bytes (sum {})", ce, got.len(), adler(&got), orig.len(), adler(&orig)),
+        );
+    }
+    r
+}
+
+// ---------------------------------------------------------------------------------------------
 // generator
 
 const CODINGS: &[&str] = &["gzip", "br", "deflate", "zstd", "identity", "*", "compress", "x-gzip", "GZIP", "Br", "Identity", "foo"];
@@ -914,6 +1039,53 @@ fn gen(ctx: &Ctx) -> Vec<String> {
             }
         }
     }
+    // ---- req: every coding × sizes × chunkings of the compressed stream
+    for ce in ["gzip", "br", "deflate", "zstd", "identity", "-", "GZIP", "_Br_", "x-foo"] {
+        for &n in &[0usize, 1, 100, 2048, 2049, 5000, 70000] {
+            for body in ["c4", "r4"] {
+                for ev in ["-", "1,1,1,p,5", "2048,2049,2050", "0,p,p,7,0"] {
+                    if n > 5000 && ev != "-" && ev != "2048,2049,2050" {
+                        continue;
+                    }
+                    cases.push(format!("req ce={ce} body={body} n={n} ev={ev} j={}", n % 3));
+                }
+            }
+        }
+    }
+    for ce in ["gzip", "br", "deflate", "zstd"] {
+        cases.push(format!("req ce={ce} bad=1 body=c4 n=300 ev=100 j=0"));
+        cases.push(format!("req ce={ce} body=c4 n=3000 ev=10,e j=0"));
+        cases.push(format!("req ce={ce} body=r5 n={} ev=- j=2", 1usize << 20));
+        cases.push(format!("req ce={ce} body=c5 n={} ev={} j=1,0,2", 1usize << 20, vec!["4096"; 40].join(",")));
+    }
+    for _ in 0..ctx.budget(300) {
+        let ce = *rng.pick::<&str>(&["gzip", "br", "deflate", "zstd", "gzip", "br", "identity", "-", "Gzip", "x-foo"]);
+        let n = match rng.below(6) {
+            0 => rng.range(0, 10),
+            1 | 2 => rng.range(10, 3000),
+            3 | 4 => rng.range(3000, 40000),
+            _ => rng.range(40000, 300000),
+        };
+        let mut ev: Vec<String> = Vec::new();
+        for _ in 0..rng.below(7) {
+            while rng.chance(1, 4) {
+                ev.push("p".into());
+            }
+            ev.push(match rng.below(5) {
+                0 => rng.range(0, 3).to_string(),
+                1 => rng.pick::<usize>(&[2047, 2048, 2049, 2050]).to_string(),
+                2 | 3 => rng.range(1, 600).to_string(),
+                _ => rng.range(2049, 20000).to_string(),
+            });
+        }
+        let body = format!("{}{}", if rng.chance(1, 2) { 'r' } else { 'c' }, rng.below(50));
+        let j: Vec<String> = (0..rng.below(4)).map(|_| rng.below(3).to_string()).collect();
+        cases.push(format!(
+            "req ce={ce} body={body} n={n} ev={} j={}",
+            if ev.is_empty() { "-".to_owned() } else { ev.join(",") },
+            if j.is_empty() { "-".to_owned() } else { j.join(",") }
+        ));
+    }
     // ---- resp: random
     for _ in 0..ctx.budget(900) {
         let ae = if rng.chance(1, 10) { "-".to_owned() } else { gen_ae(&mut rng) };
@@ -959,6 +1131,7 @@ fn run(line: &str) -> CaseResult {
     match line.split_ascii_whitespace().next() {
         Some("neg") => run_neg(line),
         Some("resp") => run_resp(line),
+        Some("req") => run_req(line),
         _ => CaseResult::ok("bad-case".into()),
     }
 }
